@@ -85,6 +85,55 @@ func genAgg(t *rapid.T) Generated {
 			}
 		}
 	}
+	// An aggregated predicate that is also derived by ordinary rules of the same stratum: the facts the
+	// do-transform produces must feed those rules (recursively on the same predicate, or through a
+	// consumer that is mutually recursive with it).
+	if rapid.IntRange(0, 3).Draw(t, "aggRecursive") == 0 {
+		var cands []PredInfo
+		for _, p := range g.Schema {
+			if len(p.Cols) > 0 {
+				cands = append(cands, p)
+			}
+		}
+		if len(cands) > 0 {
+			p := rapid.SampledFrom(cands).Draw(t, "arPred")
+			body := Atom{Pred: p.Name, Args: []Term{}}
+			for i := range p.Cols {
+				body.Args = append(body.Args, Var(fmt.Sprintf("V%d", i)))
+			}
+			red := rapid.SampledFrom([]string{"fn:count", "fn:count", "fn:max", "fn:min", "fn:sum"}).Draw(t, "arRed")
+			fn := Fn(red)
+			if red != "fn:count" {
+				var nums []string
+				for i := range p.Cols {
+					if p.Cols[i] == 'n' {
+						nums = append(nums, fmt.Sprintf("V%d", i))
+					}
+				}
+				if len(nums) == 0 {
+					fn = Fn("fn:count")
+				} else {
+					fn = Fn(red, Var(rapid.SampledFrom(nums).Draw(t, "arCol")))
+				}
+			}
+			g.Prog.Rules = append(g.Prog.Rules, Rule{Head: Atom{Pred: "sr0", Args: []Term{Var("R")}}, Body: []Lit{PosLit(body)},
+				Do: &Do{Lets: []LetStmt{{Var: "R", Fn: fn}}}})
+			step := func(head, from string) Rule {
+				return Rule{Head: Atom{Pred: head, Args: []Term{Var("Y")}}, Body: []Lit{PosLit(Atom{Pred: from, Args: []Term{Var("X")}}),
+					CmpLit("<", Var("X"), Num(8)), CmpLit(">", Var("X"), Num(-3)), EqLit(Var("Y"), Fn("fn:plus", Var("X"), Num(1)))}}
+			}
+			switch rapid.IntRange(0, 2).Draw(t, "arShape") {
+			case 0: // recursion on the aggregated predicate itself
+				g.Prog.Rules = append(g.Prog.Rules, step("sr0", "sr0"))
+			case 1: // consumer in the same recursive component
+				g.Prog.Rules = append(g.Prog.Rules, step("tr0", "sr0"), step("sr0", "tr0"))
+			default: // consumer in the same component, recursion bounded by the filter only
+				g.Prog.Rules = append(g.Prog.Rules, step("tr0", "sr0"), Rule{Head: Atom{Pred: "sr0", Args: []Term{Var("X")}},
+					Body: []Lit{PosLit(Atom{Pred: "tr0", Args: []Term{Var("X")}}), CmpLit("<", Var("X"), Num(6))}})
+			}
+			labels["agg-feeds-same-stratum"] = true
+		}
+	}
 	g.Labels = g.Labels[:0]
 	for l := range labels {
 		g.Labels = append(g.Labels, l)
